@@ -43,6 +43,9 @@ def check(ctx, fns, pairs, rule="R17.capacity", key_prefix="ptr-capacity"):
                     continue
                 if s.i not in w:
                     continue
+                rec = P.records.get((s.c[0].strip().get("rec") or "").replace("struct ", ""))
+                if rec is not None and not any(f_["n"] == cap for f_ in rec["fields"]):
+                    continue        # a record that has the pointer member but no such capacity member: not an instance
                 n += 1
                 k = "%s|%s:%s|%s" % (key_prefix, P.rel(fn.file), fn.name, ptr)
                 seen[k] = seen.get(k, 0) + 1
